@@ -732,6 +732,7 @@ func main() {
 	r := ev.New("C15", "translation_validation")
 	thorough := ev.Thorough()
 	frameRoundTrip(r, thorough)
+	coordinatorMerge(r)
 
 	cases := allCases(thorough)
 	dir := fmt.Sprintf("/dev/shm/verif-c15-%d", os.Getpid())
@@ -937,6 +938,17 @@ func replay(path string) {
 	if err := json.Unmarshal(b, &rec); err != nil {
 		fmt.Fprintln(os.Stderr, err)
 		os.Exit(2)
+	}
+	var mprobe struct {
+		Merge *mergeCase `json:"merge"`
+	}
+	if json.Unmarshal(rec.Artefact, &mprobe) == nil && mprobe.Merge != nil && mprobe.Merge.Merge {
+		if msg, _ := mergeOne(*mprobe.Merge); msg != "" {
+			fmt.Println("C15 replay: coordinator merge still differs:", msg)
+			os.Exit(1)
+		}
+		fmt.Println("C15 replay: coordinator merge agrees")
+		os.Exit(0)
 	}
 	var probe struct {
 		Frame *frameCase `json:"frame"`
